@@ -305,7 +305,9 @@ func TestVerif(t *testing.T) {
 			names = append(names, "a"+string([]byte{byte(b)})+"b")
 		}
 
-		r.Extra("usernames_enumerated", len(names))
+		if r.Shard == 0 {
+			r.Extra("usernames_enumerated", len(names))
+		}
 		p1202 := version.Minecraft_1_20_2.Protocol
 		for i, name := range names {
 			if !r.Mine(i) {
